@@ -157,7 +157,7 @@ namespace AIToolbox {
         const auto currRows = matrix.rows();
 
         if (storage_.rows() == currRows)
-            storage_.conservativeResize(currRows * 2, Eigen::NoChange);
+            storage_.conservativeResize(currRows ? currRows * 2 : 1, Eigen::NoChange);
 
         storage_.row(currRows) = row;
 
